@@ -509,7 +509,10 @@ EXACT_FIELDS = {
                          'cons-colon': ':Parameters:\n    - `a`: {D}\n    - `kw`: {w}', 'cons-dash': ':Parameters:\n    - `a` - {D}\n    - `kw` - {w}',
                          'cons-spacecolon': ':Parameters:\n    - `a` : {D}', 'cons-second': ':Parameters:\n    - `kw`: {w}\n    - `a`: {D}',
                          'cons-exceptions': ':Exceptions:\n    - `ValueError`: {D}', 'cons-keywords': ':Keywords:\n    - `k`: {D}',
-                         'cons-deflist': ':Parameters:\n    `a` : int\n        {D}'},
+                         'cons-deflist': ':Parameters:\n    `a` : int\n        {D}',
+                         # a consolidated field whose body goes on after the list: a closing paragraph, a second list
+                         'cons-trailing-para': ':Parameters:\n    - `a`: {w}\n\n    {D}', 'cons-two-lists': ':Parameters:\n    - `a`: {w}\n\n    {w2}\n\n    - `kw`: {D}',
+                         'cons-exceptions-trailing-para': ':Exceptions:\n    - `ValueError`: {w}\n\n    {D}', 'cons-leading-para': ':Parameters:\n    {D}\n\n    - `a`: {w}'},
     'google': {'param': 'Args:\n    a: {D}', 'return': 'Returns:\n    {D}', 'raise': 'Raises:\n    ValueError: {D}', 'keyword': 'Keyword Args:\n    k: {D}',
                'see-named': 'See Also:\n    f: {D}', 'note': 'Note:\n    {D}', 'warns': 'Warns:\n    UserWarning: {D}', 'yield': 'Yields:\n    int: {D}',
                'param-typed': 'Args:\n    a (int): {D}', 'param-cont': 'Args:\n    a: {w}\n        {D}',
@@ -523,7 +526,8 @@ EXACT_FIELDS = {
               'warns': 'Warns\n-----\nUserWarning\n    {D}', 'yield': 'Yields\n------\nint\n    {D}', 'return-freeform': 'Returns\n-------\n{D}',
               'keyword': 'Other Parameters\n----------------\nk\n    {D}', 'param-typed': 'Parameters\n----------\na : int\n    {D}', 'param-cont': 'Parameters\n----------\na\n    {w}\n    {D}'},
 }
-EXACT_HOME = {'param-typed-nextline': ('Parameters', 'a'), 'param-mltype': ('Parameters', 'a'), 'param-mltype-nextline': ('Parameters', 'a'), 'keyword-mltype-nextline': ('Parameters', 'k'),
+EXACT_HOME = {'cons-trailing-para': None, 'cons-two-lists': None, 'cons-exceptions-trailing-para': None, 'cons-leading-para': None,
+              'param-typed-nextline': ('Parameters', 'a'), 'param-mltype': ('Parameters', 'a'), 'param-mltype-nextline': ('Parameters', 'a'), 'keyword-mltype-nextline': ('Parameters', 'k'),
               'return-mltype-nextline': ('Returns', None), 'yield-mltype-nextline': ('Yields', None), 'return-typed-nextline': ('Returns', None),
               'see-named': None, 'see-named-cont': None, 'see': ('See Also', None), 'author': ('Author', None), 'warns': ('Warns', None), 'yield': ('Yields', None), 'return-freeform': ('Returns', None),
               'param': ('Parameters', 'a'), 'param-cont': ('Parameters', 'a'), 'param-typed': ('Parameters', 'a'), 'return': ('Returns', None), 'raise': ('Raises', 'ValueError'),
